@@ -34,6 +34,8 @@ HARNESS = {
                     about='isched: fibre.c, messageq.c, list.c object code instrumented with -fsanitize=thread under harness/isched/vrt.c'),
     'pt': dict(kind='script', script='pt/pt_check.py', interp='python3-vt',
                about='Hypothesis program generator + emitter (real protothreads.h, gcc -O0) + reference interpreter'),
+    'tsan': dict(kind='script', script='tsan/tsan_soak.py', interp='python3',
+                 about='E6: real pthreads under the real ThreadSanitizer (gcc -fsanitize=thread, halt_on_error=1); thorough tier only, supplementary'),
     'list': dict(cpp=['h/h_list.cpp'], c=['adp/adp_list.c'], repo=['librfn/list.c']),
 }
 
@@ -451,6 +453,8 @@ PROPS = {
             dict(h='fibconc', mode='enum', what='fibres, ISR script 4 (request queue full), every access', params=dict(mode=1, script=4, every_access=1, oracle=7, handlers=2, evdepth=1, h0=1, h1=2),
                  workers=2, common=dict(split=3, maxruns=1500000)),
             dict(h='fibconc', mode='rc', what='fibres, random, both modes', params=dict(oracle=7), quick=dict(cases=40000, len=500), thorough=dict(cases=2000000, len=500)),
+            dict(h='tsan', mode='script', what='real pthreads under the real ThreadSanitizer (8 processes x 20 s)', tiers=('thorough',), workers=8,
+                 thorough=dict(params=dict(ms=20000), timeout=900)),
         ],
         require={'payload-handed-over': 1000, 'event-delivered': 1000, 'threads-mode': 1000, 'isr-mode': 1000},
         assumptions=['executions are sequentially consistent interleavings; non-SC behaviours of weakened atomics are not generated - race freedom is decided as stated and the carry-over to weak machines is the DRF-SC theorem',
